@@ -275,7 +275,9 @@ func c16(c *Ctx) {
 		c.Check(good, "R4", "global|(*meter).setDelegate|every instrument and every registration is connected", at(gx.M, fn.Pos()), "two total loops", "an instrument or callback registered before installation is skipped: "+why)
 		// the meter delegate is stored before/with the loops, under the lock
 		fDel := lookupField(gx.Pkg, "meter", "delegate")
-		st := g.Match(func(n ast.Node) bool { return assignRHS(n, func(e ast.Expr) bool { return isField(info, e, fDel) }) != nil })
+		st := g.Match(func(n ast.Node) bool {
+			return assignRHS(n, func(e ast.Expr) bool { return isField(info, e, fDel) }) != nil
+		})
 		s, _ := g.ReachFromEntry(func(x *GNode) bool { return toSet(st)[x] }, nil)
 		c.Check(len(st) == 1 && !s[g.Exit], "R4", "global|(*meter).setDelegate|m.delegate set on every path", at(gx.M, fn.Pos()), "later constructors go straight to the SDK", "the meter's delegate is not always recorded: instruments created afterwards stay placeholders forever")
 	}
